@@ -198,6 +198,27 @@ def _model_doc_roundtrip(st):
         return {"err": type(exc).__name__ + ": " + str(exc)[:160], "j": codec.val_to_py(st["j0"])}
 
 
+def _names_key(clause, a, b, rest):
+    """Root-cause key for a round trip that differs only in class names.  Known finding: the
+    _N suffixes of de-duplication are re-dealt (the BASE names -- suffix stripped -- are the
+    same on both sides).  A base name that was not there before is a different cause."""
+    import re
+    if clause != "definition-names-differ-only":
+        return ("C06", clause) + tuple(rest)
+
+    def bases(j):
+        out = set()
+        if isinstance(j, dict):
+            names = list((j.get("definitions") or {}).keys()) if isinstance(j.get("definitions"), dict) else []
+            if isinstance(j.get("title"), str):
+                names.append(j["title"])
+            out = {re.sub(r"_\d+$", "", n) for n in names}
+        return out
+    if bases(a) == bases(b):
+        return ("C06", clause)
+    return ("C06", "class-base-names-changed") + tuple(rest)
+
+
 def serializer_model_part(rep, pid, tier):
     """MC_Ser: TLC evaluates C03/C06 on the MODEL's serializer for every document; the real
     serialize_json output is compared with the model's (equal => TLC's verdict stands)."""
@@ -219,6 +240,8 @@ def serializer_model_part(rep, pid, tier):
         if clause != "ok":
             flagged += 1
             key = (pid, clause) if clause == "definition-names-differ-only" else (pid, clause, _kwsig(st["doc"]))
+            if pid == "C06" and clause == "definition-names-differ-only":
+                key = _names_key(clause, codec.val_to_py(st["j0"]), codec.val_to_py(st["j1"]) if "j1" in st else codec.val_to_py(st["j0"]), ())
             rep.violation(key, f"{clause} (design level, real serializer output equals the model's): "
                           f"{json.dumps(codec.schema_to_json(st['doc']))[:200]} -> {json.dumps(codec.val_to_py(st['j0']))[:200]}",
                           dict(state=st))
@@ -242,8 +265,7 @@ def serializer_model_part(rep, pid, tier):
             rej, _adj = df.adjudicate(evs, parallel=8)
             for eid, clause in sorted(rej.items()):
                 st, b = idx[eid]
-                key = ("C06", clause) if clause == "definition-names-differ-only" else \
-                      ("C06", clause, "model-document", _kwsig_json(b["j"]))
+                key = _names_key(clause, b["j"], b["back"], ("model-document", _kwsig_json(b["j"])))
                 rep.violation(key, f"{clause}: the document of the specification's serializer image "
                               f"{json.dumps(b['j'])[:200]} comes back from parse -> serialize as {json.dumps(b['back'])[:200]}",
                               dict(state=st))
@@ -387,8 +409,7 @@ def run(pid, tier, replay_file=None):
                 a, b = (ob.get("jm"), ob.get("jm1")) if tag == "C06dsl" else (ob["j0"], ob["j1"])
                 msg = (f"round trip is not the identity ({tag}): {json.dumps(a)[:200]} -> "
                        f"{json.dumps(b)[:200]}")
-                key = ("C06", clause) if clause == "definition-names-differ-only" else \
-                      ("C06", clause, _kwsig_json(a))
+                key = _names_key(clause, a, b, (_kwsig_json(a),))
             else:
                 msg = (f"defaults/descriptions of {sjson(st)} not preserved in the {tag}: "
                        + (json.dumps(ob.get('j0'))[:200] if tag == "json" else json.dumps(ob.get('elem' if tag == 'elem' else 'py_root'))[:300]))
